@@ -47,7 +47,10 @@ def dyadic(max_k=64, den=8, nonzero=True):
     return s.map(lambda k: Fraction(k, den))
 
 
-WEIGHT_CLASSES = ("unit", "smallint", "dyadic", "mixed", "cancelling", "positive")
+WEIGHT_CLASSES = ("unit", "smallint", "dyadic", "mixed", "cancelling", "positive", "tiny")
+# non-zero weights far below any "tolerance": an edge is an edge whatever its magnitude
+TINY = [Fraction(1, 2 ** 45), -Fraction(1, 2 ** 50), Fraction(3, 2 ** 70), -Fraction(1, 2 ** 200), Fraction(1, 2 ** 1000),
+        -Fraction(1, 2 ** 1074), Fraction(1, 2 ** 34), -Fraction(1, 2 ** 28)]
 
 
 @st.composite
@@ -70,6 +73,9 @@ def weighted_dag(draw, p_min=1, p_max=8, classes=WEIGHT_CLASSES, shapes=None):
     elif cls == "smallint":
         ws = draw(st.lists(st.sampled_from([1, 2, 3, -1, -2, -3]), min_size=len(edges), max_size=len(edges)))
         ws = [Fraction(w) for w in ws]
+    elif cls == "tiny":
+        ws = draw(st.lists(st.sampled_from(TINY + TINY + [Fraction(1), Fraction(-1), Fraction(3, 2), Fraction(-2)]),
+                           min_size=len(edges), max_size=len(edges)))
     elif cls == "mixed":
         es = draw(st.lists(st.tuples(st.integers(-10, 10), st.booleans()), min_size=len(edges), max_size=len(edges)))
         ws = [(Fraction(2) ** e) * (-1 if neg else 1) for e, neg in es]
